@@ -160,7 +160,9 @@ def run(chk):
                 "column x key length and checks the range arithmetic; every case is rendered for sort / unique(regex key in "
                 "the middle of a line) / pattern violations, with ASCII and multi-byte text before the key, and for "
                 "line-count / Lua / AI / affects violations (range = start tag); non-trivial = every rendered case")
-    res = vlib.run_tlc("MC_C10", timeout=900)
+    res = vlib.run_tlc("MC_C10", cfg_text=rc.set_consts("MC_C10", Wide="FALSE" if quick else "TRUE",
+                                                          KeyOffs="{0, 2, 5, 121, 124, 13, 16}" if quick else "{0, 1, 2, 3, 5, 8, 121, 122, 124, 13, 14, 16, 40}"),
+                       timeout=900)
     chk.add_tlc(res, "MC_C10")
     chk.exhaustive = True
     wd = vlib.subdir("c10")
